@@ -77,6 +77,17 @@ func c15Gen(rng *rand.Rand, conf string, idx int) any {
 				w.CfgKind = "zero"
 			} else {
 				w.CfgBits = w.Mask&uint32(rng.Intn(8192)) | 1<<uint(pick(rng, free))
+				switch rng.Intn(4) {
+				case 0:
+					w.CfgBits = 8191 // "all" events, although only some are implemented
+				case 1:
+					for _, f := range free {
+						if rng.Intn(2) == 0 {
+							w.CfgBits |= 1 << uint(f)
+						}
+					}
+					w.CfgBits |= w.Mask
+				}
 			}
 		}
 	}
